@@ -380,6 +380,7 @@ parser! {
       // These all have the general form of
       //    `identifier : identifier`
       // and so are ambiguous.
+      / simple:simple_type_declaration__elementary_without_constant() { DataTypeDeclarationKind::Simple(simple )}
       / ambiguous:structure_or_enumerated_or_simple_type_declaration__without_value() { DataTypeDeclarationKind::LateBound(ambiguous) }
     // Union of structure_type_declaration, enumerated_type_declaration and
     // simple_type_declaration all without any initializer. These types all
@@ -394,6 +395,17 @@ parser! {
       SimpleDeclaration {
         type_name,
         spec_and_init,
+      }
+    }
+    // A simple type declaration without an initial value is unambiguous when the
+    // base type is an elementary type because those are keywords (e.g. INT)
+    rule simple_type_declaration__elementary_without_constant() -> SimpleDeclaration = type_name:simple_type_name() _ tok(TokenType::Colon) _ et:elementary_type_name() {
+      SimpleDeclaration {
+        type_name,
+        spec_and_init: InitialValueAssignmentKind::Simple(SimpleInitializer {
+          type_name: et.into(),
+          initial_value: None,
+        }),
       }
     }
     rule simple_spec_init() -> InitialValueAssignmentKind = type_name:simple_specification() _ constant:(tok(TokenType::Assignment) _ c:constant() { c })? {
